@@ -1351,7 +1351,12 @@ func (c *BytecodeCompiler) compileNode(node ast.Node, valueIsIgnored bool) expre
 		c.compileAwaitExpressionNode(node)
 	case *ast.YieldExpressionNode:
 		c.compileYieldExpressionNode(node)
-		return expressionCompiledWithoutResult
+		if valueIsIgnored {
+			return expressionCompiledWithoutResult
+		}
+		// the yielded value is consumed by the caller of `next`,
+		// when the generator is resumed the yield expression evaluates to nil
+		c.emit(node.Location().EndPos.Line, bytecode.NIL)
 	case *ast.VariablePatternDeclarationNode:
 		c.compileVariablePatternDeclarationNode(node)
 	case *ast.VariableDeclarationNode:
